@@ -352,9 +352,10 @@ class FileBufferedCollection(BufferedCollection):
                 collection._flush(force=force)
             except (OSError, MetadataError) as err:
                 issues[collection._filename] = err
-        if not issues:
-            cls._buffered_collections = remaining_collections
-        else:
+        # Collections that remain buffered must stay registered even if some
+        # files could not be flushed, or they would never be flushed later.
+        cls._buffered_collections = remaining_collections
+        if issues:
             raise BufferedError(issues)
 
     @classmethod
